@@ -40,7 +40,7 @@ def strategy(tier):
         'size': G.size_strategy(),
         'seed': st.sampled_from([None, None, 0, 1, 2, 3, 4, 5]),
         'form': st.sampled_from(['list', 'list', 'dict', 'series',
-                                 'series2']),
+                                 'series2', 'bytes', 'bytes-dict']),
         'avoid_known': st.sampled_from([True] * 6 + [False]),
         'zero_keys': G.zero_keys_strategy(),
     }).map(steer)
@@ -75,7 +75,8 @@ def valid(case):
     if not G.valid_size(case.get('size')):
         return False
     form = case.get('form', 'list')
-    if form not in ('list', 'dict', 'series', 'series2'):
+    if form not in ('list', 'dict', 'series', 'series2', 'bytes',
+                    'bytes-dict'):
         return False
     if form.startswith('series') and any(
             x is not None and '\x00' in x for x in case['examples']):
@@ -105,6 +106,21 @@ def call_for_form(case):
             cols = pd.Series(xs, dtype=object)
         ok, r = call(rexpy.pdextract, cols, seed=case.get('seed'))
         return ok, r, 'pdextract'
+    if form in ('bytes', 'bytes-dict'):
+        # the examples as encoded byte strings (nulls left out: with an
+        # encoding rexpy decodes every entry)
+        from collections import Counter
+        from tdda.rexpy import rexpy
+        try:
+            bs = [x.encode('utf-8') for x in case['examples']
+                  if x is not None]
+        except UnicodeEncodeError:
+            ok, r = call(G.run_extract, case, form='list')
+            return ok, r, 'list'
+        given = bs if form == 'bytes' else dict(Counter(bs))
+        ok, r = call(rexpy.extract, given, encoding='utf-8',
+                     **G.extract_kwargs(case))
+        return ok, r, form
     ok, r = call(G.run_extract, case)
     return ok, r, form
 
